@@ -23,6 +23,8 @@ where
         );
 
         let joint_log_likelihood = self.joint_log_likelihood(x.view());
+        #[cfg(linfa_verif)]
+        linfa::verif_hooks::note_order("bayes.predict_inplace", joint_log_likelihood.keys());
 
         // We store the classes and likelihood info in an vec and matrix
         // respectively for easier identification of the dominant class for
